@@ -204,8 +204,8 @@ def random_history(rng, region, length, otaa=None, classc=False, commands=True, 
                     net.downlink(port=5, payload=b"x", nwk=rng.bytes(16), accept=False)
                 elif kind == 2 and net.down is not None:
                     net.downlink(port=5, payload=b"y", fcnt=net.down, accept=False)          # replay
-                elif kind == 3:
-                    net.downlink(port=5, payload=b"z", fcnt=(net.down or 0) + 16385 + rng.below(3), accept=False)  # too far ahead
+                elif kind == 3 and net.down is not None and net.down + 16388 < (1 << 32):
+                    net.downlink(port=5, payload=b"z", fcnt=net.down + 16385 + rng.below(3), accept=False)  # too far ahead
                 else:
                     net.downlink(port=5, payload=rng.bytes(60), maxp=rng.choice([11, 51]), accept=False)  # oversized
                     if snap_every:
